@@ -327,6 +327,75 @@ class OneFileTwoNames(object):
             shutil.rmtree(root, ignore_errors=True)
 
 
+class GrowingSource(object):
+    case_timeout = 30
+    name = 'first-source-grows-between-calls'
+    describe = ('ONE compiler over two real directories, two compile() calls: between them a new module appears in the FIRST source - '
+                'as a file at the top, in an existing sub-directory, or in a NEW directory one, two or three levels down - while the '
+                'second source holds another text of it: the second call compiles the first source\'s text (sources in order, the '
+                'first that holds the module at the time of the call)')
+
+    PLACES = ['', 'vendor', 'newdir', 'vendor/release-2', 'vendor/release-1/patches', 'x/y/z']
+
+    def blocks(self, tier):
+        return [{}]
+
+    def cases(self, block, tier):
+        for place in self.PLACES:
+            for importer in (0, 1):
+                yield {'place': place, 'importer': importer}
+
+    def run_case(self, case):
+        import os
+        import shutil
+        import tempfile
+        from mc import env
+        from pysmi.reader.localfile import FileReader
+
+        def mod(name, arc, imports=''):
+            return ('%s DEFINITIONS ::= BEGIN\nIMPORTS enterprises FROM SNMPv2-SMI%s;\n%sRoot OBJECT IDENTIFIER ::= { enterprises %d }\nEND\n'
+                    % (name, imports, name.split('-')[0].lower(), arc))
+        base = os.environ.get('VERIF_TMP') or ('/dev/shm' if os.path.isdir('/dev/shm') else None)
+        root = tempfile.mkdtemp(prefix='mcC08g', dir=base)
+        try:
+            d1, d2 = os.path.join(root, 'first'), os.path.join(root, 'second')
+            os.makedirs(os.path.join(d1, 'vendor', 'release-1'))
+            os.mkdir(d2)
+            for b in env.BASE_NAMES:
+                with open(os.path.join(d1, b), 'w') as f:
+                    f.write(env.base_text(b))
+            with open(os.path.join(d1, 'vendor', 'release-1', 'OLD-MIB.txt'), 'w') as f:
+                f.write(mod('OLD-MIB', 500))
+            with open(os.path.join(d2, 'NEW-MIB.txt'), 'w') as f:
+                f.write(mod('NEW-MIB', 2000))
+            with open(os.path.join(d2, 'TOP-MIB.txt'), 'w') as f:
+                f.write(mod('TOP-MIB', 3000, ' newRoot FROM NEW-MIB'))
+            w = env.CaptureWriter()
+            comp = env.MibCompiler(env.fresh_parser('smiV2'), env.make_codegen('json'), w)
+            comp.addSources(FileReader(d1), FileReader(d2))
+            comp.addSearchers(env.StubSearcher(*env.BASE_NAMES))
+            comp.compile('OLD-MIB', rebuild=True)
+            target = os.path.join(d1, case['place'])
+            if not os.path.isdir(target):
+                os.makedirs(target)
+            with open(os.path.join(target, 'NEW-MIB.txt'), 'w') as f:
+                f.write(mod('NEW-MIB', 1000))
+            del w.written[:]
+            res = comp.compile('TOP-MIB' if case['importer'] else 'NEW-MIB', rebuild=True)
+            docs = dict((name, json.loads(data)) for name, data, _ in w.written)
+            sig = 'C08|growing-source|%s' % ('top' if not case['place'] else 'existing-directory' if case['place'] == 'vendor'
+                                              else 'new-directory-depth-%d' % len(case['place'].split('/')))
+            vs = []
+            if res.get('NEW-MIB') != 'compiled' or 'NEW-MIB' not in docs:
+                vs.append(('%s|module-not-compiled' % sig, repr(dict((k, str(v)) for k, v in res.items()))))
+            elif docs['NEW-MIB'].get('newRoot', {}).get('oid') != '1.3.6.1.4.1.1000':
+                vs.append(('%s|text-of-a-later-source-compiled' % sig, 'newRoot is %r; the first source holds NEW-MIB in %s' % (
+                    docs['NEW-MIB'].get('newRoot', {}).get('oid'), target)))
+            return repr(sorted((k, str(v)) for k, v in res.items())), vs, 2
+        finally:
+            shutil.rmtree(root, ignore_errors=True)
+
+
 class SeveralPerFile(C07.SeveralPerFile):
     """C07's worlds of multi-module files over two sources, judged for WHICH copy of a module is compiled."""
     prefix = 'C08'
@@ -364,4 +433,4 @@ class SeveralPerFile(C07.SeveralPerFile):
         return vs
 
 
-FAMILIES = [SeveralPerFile(), OneFileTwoNames(), Graphs(), Suppliers(), Shapes(), TwoDirectories()]
+FAMILIES = [SeveralPerFile(), OneFileTwoNames(), GrowingSource(), Graphs(), Suppliers(), Shapes(), TwoDirectories()]
